@@ -26,7 +26,7 @@ Ranges == { [kind |-> "range", min |-> mn, max |-> mn + span, step |-> st, vals 
 Probs == Ranges
     \cup { [kind |-> "single", min |-> 0, max |-> 0, step |-> 1, vals |-> <<v>>] : v \in {0, 50, 125} }
     \cup { [kind |-> "list", min |-> 0, max |-> 0, step |-> 1, vals |-> vs] :
-              vs \in { <<10, 20>>, <<300, 100, 200>>, <<1, 2, 3, 4>> } }
+              vs \in { <<10, 20>>, <<300, 100, 200>>, <<1, 2, 3, 4>>, <<0, 50, 100>>, <<100, 0>> } }
 
 Variants2 == { [dim |-> 2, code |-> "Toric2DCode", decoder |-> d, deformation |-> df, method |-> m] :
                   d \in {"BeliefPropagationOSDDecoder", "MatchingDecoder"}, df \in {"", "XZZX"}, m \in {"direct"} }
